@@ -26,7 +26,9 @@ StransClasses == << <<0, 0>>, <<128, 0>>, <<0, 4>>, <<0, 2>>, <<128, 6>>, <<0, 6
 \* NUL is as conformant as one that only drops a final pad byte - strings containing NUL are outside the domain)
 \* (strings that end in, or consist of, blanks: a blank is content, not padding)
 StrClasses == << <<>>, <<97>>, <<97, 98>>, <<195, 169>>, <<228, 184, 173>>, <<65, 66, 67, 68, 69>>, <<99, 49, 95, 120>>,
-                 <<65, 32>>, <<32>>, <<98, 117, 115, 32, 9>> >>
+                 <<65, 32>>, <<32>>, <<98, 117, 115, 32, 9>>,
+                 \* vocabulary: a name that widespread tools give a meaning of their own ("$$$CONTEXT_INFO$$$") is a name like any other
+                 <<36, 36, 36, 67, 79, 78, 84, 69, 88, 84, 95, 73, 78, 70, 79, 36, 36, 36>> >>
 RealClasses == <<
   <<3,15,15,0,0,0,0,0,0,0,0,0,0,0,0,0>>,          \* 1.0
   <<4,0,5,6,8,0,0,0,0,0,0,0,0,0,0,0>>,            \* 90.0
